@@ -47,7 +47,7 @@ def stepLine (st : DState) (line : String) : DState × String :=
                   match fwdCmd st.fwdClosing cmd with
                   | some (c, out) => ({ st with fwdClosing := c }, out)
                   | none =>
-                  match (idCmd cmd).orElse (fun _ => negCmd cmd args) with
+                  match (((idCmd cmd).orElse (fun _ => negCmd cmd args)).orElse (fun _ => idOrderCmd cmd args)).orElse (fun _ => boundedCmd cmd args) with
                   | some out => (st, out)
                   | none => (st, "bad-op")
 
